@@ -30,6 +30,39 @@ enum Op {
     Query(usize),
     QueryFirst(usize),
     Yield,
+    /// sub-operations (on different ports) polled concurrently, like `futures::join!`
+    Join(Vec<Op>),
+}
+
+type Ports = (Option<(usize, Output<u64>)>, Option<(usize, Requestor<u64, u64>)>);
+
+/// Polls every unfinished sub-future on each poll, in order; ready when all are.
+struct JoinAll {
+    futs: Vec<Option<Pin<Box<dyn Future<Output = Ports> + Send>>>>,
+    done: Vec<Ports>,
+}
+impl Future for JoinAll {
+    type Output = Vec<Ports>;
+    fn poll(mut self: Pin<&mut Self>, cx: &mut TaskContext<'_>) -> Poll<Vec<Ports>> {
+        let this = &mut *self;
+        let mut pending = false;
+        for f in this.futs.iter_mut() {
+            if let Some(fut) = f.as_mut() {
+                match fut.as_mut().poll(cx) {
+                    Poll::Ready(p) => {
+                        this.done.push(p);
+                        *f = None;
+                    }
+                    Poll::Pending => pending = true,
+                }
+            }
+        }
+        if pending {
+            Poll::Pending
+        } else {
+            Poll::Ready(std::mem::take(&mut this.done))
+        }
+    }
 }
 
 #[derive(Clone)]
@@ -117,6 +150,64 @@ impl SM {
                     self.sh.log(format!("[\"{}\",{},{},[{}]]", if first { "query-first-end" } else { "query-end" }, mid, ctx, rs.join(",")));
                 }
                 Op::Yield => YieldOnce(false).await,
+                Op::Join(subs) => {
+                    // the ports are moved into the sub-futures for the duration of the join and put back afterwards
+                    let mut futs: Vec<Option<Pin<Box<dyn Future<Output = Ports> + Send>>>> = Vec::new();
+                    for s in subs {
+                        let sh = self.sh.clone();
+                        let ctx = ctx.clone();
+                        let id = self.id;
+                        match s {
+                            Op::Send(k) => {
+                                let k = *k;
+                                let mut o = self.outs.remove(&k).unwrap();
+                                futs.push(Some(Box::pin(async move {
+                                    let mid = sh.new_msg(&ctx, &format!("[\"output\",\"{}.{}\"]", id, k));
+                                    o.send(sh.payload(mid)).await;
+                                    sh.log(format!("[\"send-end\",{},{}]", mid, ctx));
+                                    (Some((k, o)), None)
+                                })));
+                            }
+                            Op::Query(k) | Op::QueryFirst(k) => {
+                                let k = *k;
+                                let first = matches!(s, Op::QueryFirst(_));
+                                let mut r = self.reqs.remove(&k).unwrap();
+                                futs.push(Some(Box::pin(async move {
+                                    let mid = sh.new_msg(&ctx, &format!("[\"requestor\",\"{}.{}\"]", id, k));
+                                    let mut replies = Vec::new();
+                                    {
+                                        let mut it = r.send(sh.payload(mid)).await;
+                                        if first {
+                                            if let Some(x) = it.next() {
+                                                replies.push(x);
+                                            }
+                                        } else {
+                                            for x in it {
+                                                replies.push(x);
+                                            }
+                                        }
+                                    }
+                                    let rs: Vec<String> = replies.iter().map(|x| x.to_string()).collect();
+                                    sh.log(format!("[\"{}\",{},{},[{}]]", if first { "query-first-end" } else { "query-end" }, mid, ctx, rs.join(",")));
+                                    (None, Some((k, r)))
+                                })));
+                            }
+                            Op::Yield => futs.push(Some(Box::pin(async move {
+                                YieldOnce(false).await;
+                                (None, None)
+                            }))),
+                            Op::Join(_) => panic!("nested join"),
+                        }
+                    }
+                    for (o, r) in (JoinAll { futs, done: Vec::new() }).await {
+                        if let Some((k, o)) = o {
+                            self.outs.insert(k, o);
+                        }
+                        if let Some((k, r)) = r {
+                            self.reqs.insert(k, r);
+                        }
+                    }
+                }
             }
         }
     }
@@ -155,6 +246,10 @@ impl Model for SM {
 fn parse_ops(toks: &[&str]) -> Vec<Op> {
     toks.iter()
         .map(|t| {
+            if let Some(rest) = t.strip_prefix("join:") {
+                let subs: Vec<&str> = rest.split('+').collect();
+                return Op::Join(parse_ops(&subs));
+            }
             let mut p = t.split(':');
             match p.next().unwrap() {
                 "send" => Op::Send(p.next().unwrap().parse().unwrap()),
